@@ -3,6 +3,7 @@
 package utreexo
 
 import (
+	"math"
 	"fmt"
 	"math/rand"
 	"sort"
@@ -51,7 +52,12 @@ func checkSchedule(res *racResult, h racHistory) {
 	for _, v := range want {
 		sort.Slice(v, func(i, j int) bool { return v[i] < v[j] })
 	}
+	limits := []int{}
 	for maxMem := 1; maxMem <= total+1; maxMem++ {
+		limits = append(limits, maxMem)
+	}
+	limits = append(limits, math.MaxInt) // "unbounded"
+	for _, maxMem := range limits {
 		in := map[string]interface{}{"history": h.String(), "maxMemory": maxMem}
 		res.seen(fmt.Sprintf("%s/%d", h.String(), maxMem))
 		var sch [][]uint64
@@ -128,7 +134,7 @@ func TestRAC_C15(t *testing.T) {
 			res.sample(map[string]interface{}{"random_history": h.String()})
 		}
 	}
-	res.Rule = fmt.Sprintf("every history with <= %d leaves / <= %d blocks (+%d seeded random histories of up to 12 blocks), recorded through AddBlockSummary with the deletion targets a prover emits (spec canonical proof targets); every memory limit from 1 to (number of schedulable leaves + 1); oracle computed from the history alone (insertion slots, add block, delete block). distinct = (history, limit) pairs", maxLeaves, maxBlocks, nr)
+	res.Rule = fmt.Sprintf("every history with <= %d leaves / <= %d blocks (+%d seeded random histories of up to 12 blocks), recorded through AddBlockSummary with the deletion targets a prover emits (spec canonical proof targets); every memory limit from 1 to (number of schedulable leaves + 1) and the unbounded limit math.MaxInt; oracle computed from the history alone (insertion slots, add block, delete block). distinct = (history, limit) pairs", maxLeaves, maxBlocks, nr)
 	res.Scope = fmt.Sprintf("histories=%d", n)
 	res.write(t)
 }
